@@ -266,7 +266,12 @@ class Exec:
                         return False
                 return True
             if k == "plit":
-                facts.append((mk_bin("Eq", v, ("lit", p["v"])), True))
+                if str(p["v"]) == "true":
+                    facts.append((v, True))                    # matching a bool against `true` is the bool itself
+                elif str(p["v"]) == "false":
+                    facts.append((("un", "Not", v), True))
+                else:
+                    facts.append((mk_bin("Eq", v, ("lit", p["v"])), True))
                 return True
             if k == "or":
                 facts.append((("matches", v, "|".join(sorted(self._vpath(q.get("path", "?")) for q in p["ps"]))), True))
